@@ -4,13 +4,14 @@
     "--" is dropped once, a transition is taken when its matcher succeeds on what is left, the run
     ends in a terminal state with nothing left), the search always ends (C03), and (backtracking
     completeness) it finds an accepting run whenever one exists: accepted iff the automaton has an
-    accepting run. NOT yet proved: that the automaton built by the Thompson construction and simplified
-    by Prepare has exactly the runs of the regular expression (T1), and that matcher-level runs
-    coincide with the sentences of the reference semantics of RefSem.v (T4). These are covered on every run by the check: the
+    accepting run; and Prepare keeps exactly the accepting runs of the Thompson automaton. NOT yet proved:
+    that the automaton built by the Thompson construction has exactly the runs of the regular
+    expression (first half of T1), and that matcher-level runs coincide with the sentences of the
+    reference semantics of RefSem.v (T4). These are covered on every run by the check: the
     automaton of every generated spec is compared with the implementation's, and the implementation's
     verdict is compared with the reference semantics ([RefSem.r_match], an independent backtracking
     matcher over symbol sequences) on every claimed case. *)
-From MowCli Require Import Base Parser Nfa Matchers Apply Values Flow Cmd RefSem ApplyProofs TermProofs CompleteProofs.
+From MowCli Require Import Base Parser Nfa Matchers Apply Values Flow Cmd RefSem ApplyProofs TermProofs NfaProofs CompleteProofs PrepareProofs.
 
 Theorem C01_accepts_only_accepting_runs :
   forall D g start args bs,
@@ -46,7 +47,18 @@ Proof.
   - intros [bs Ha]. now apply (fsm_apply_complete D g Hw start args bs).
 Qed.
 
+(** Prepare — shortcut elimination in place, in depth-first order, with the D2 repair, then the
+    priority sort — keeps exactly the accepting runs of the automaton it is given, from every state,
+    for every command line and whatever the matchers do (soundness of dropping a shortcut to an
+    already merged target included) *)
+Theorem C01_prepare_preserves_runs :
+  forall D start g g',
+    wfg g -> wft g -> start < nstates g -> prepare start g = Some g' ->
+    forall s args ro bs, Acc D g s args ro bs <-> Acc D g' s args ro bs.
+Proof. exact prepare_same_runs. Qed.
+
 Print Assumptions C01_accepts_only_accepting_runs.
+Print Assumptions C01_prepare_preserves_runs.
 Print Assumptions C01_search_complete.
 Print Assumptions C01_accepted_iff_accepting_run.
 Print Assumptions C01_search_decides.
